@@ -340,7 +340,26 @@ V_LEAF_ARGS = [[], [INT], [INT, STR], [STR, BOOL, List_(INT)], [BOOL, INT]]
 
 # ---- the enumeration of a tier: (family name, kinds, spec)
 
-def enumerate_specs(tier):  # noqa: C901
+def pydantic_canonical(spec):
+    """pydantic demands an explicit Generic[...] on a generic subclass, so the implicit variant of a class is the same pydantic
+    program as its explicit same-order variant"""
+    return digest([[c["name"], c["generic"] if c["generic"] is not None or not c["bases"] else rg.class_params(spec, c["name"]),
+                    c["bases"], c["fields"]] for c in spec["classes"]])
+
+
+def enumerate_specs(tier):
+    """(family, kinds, spec); pydantic is dropped from the kinds of a spec whose pydantic program was already enumerated"""
+    seen = set()
+    for family, kinds, spec in _enumerate_specs(tier):
+        if "pydantic" in kinds:
+            k = pydantic_canonical(spec)
+            if k in seen:
+                kinds = tuple(x for x in kinds if x != "pydantic")
+            seen.add(k)
+        yield family, kinds, spec
+
+
+def _enumerate_specs(tier):  # noqa: C901
     single = KINDS_ALL
     multi = KINDS_MULTI
     if tier == "quick":
@@ -477,8 +496,6 @@ def kind_allows(spec, kind):
     if kind == "pydantic":
         if any("Ts" in rg.class_params(spec, c["name"]) for c in classes):
             return "pydantic does not support variadic generics (documented)"
-        if any(c["generic"] is None and c["bases"] and rg.class_params(spec, c["name"]) for c in classes):
-            return "pydantic requires an explicit Generic[...] on generic subclasses: the implicit variant does not exist"
         for c in classes:
             for b in c["bases"]:
                 if b["args"] is not None and [rg.freeze(a) for a in b["args"]] == [var(p) for p in rg.class_params(spec, b["cls"])]:
@@ -675,8 +692,7 @@ class Evaluator:
             raise
         report.count("parametrisations", 1)
         fields = sorted(ref)
-        whole_shape = "+".join(sorted({p for f in fields for p in rg.field_shape(spec, leaf, f, argf).split("+")} - {"plain"})) \
-            or "plain"
+        whole_shape = rg.hierarchy_shape(spec, leaf, argf)
         try:
             retort = Retort()
             loader = retort.get_loader(tp)
@@ -878,7 +894,8 @@ def fold_violations(report):
     shape is folded into that smaller one (the enumeration is complete, so a cause that needs the extra feature keeps it)."""
     groups = {}
     for key, v in report.violations.items():
-        groups.setdefault((v["sig"]["kind"], v["sig"]["problem"]), []).append((frozenset(v["sig"]["shape"].split("+")), key))
+        groups.setdefault((v["sig"]["kind"], v["sig"]["problem"]), []).append(
+            (frozenset(v["sig"]["shape"].split("+")) - {"plain"}, key))
     out = {}
     for members in groups.values():
         minimal = sorted((fs for fs, _ in members if not any(o < fs for o, _ in members)), key=sorted)
